@@ -30,10 +30,12 @@ type c13WireArg struct {
 	Mitigation bool
 	CbMembers  bool // couchbase membership (else static)
 	SlowGets   bool // the node answers reads of instance documents after 150 ms: a monitor round is always in flight
+	SlowLoad   bool // the node answers reads of checkpoint documents after 120 ms: the first persisted-seqno reports arrive while Open() is still loading
 }
 
 type c13WireRes struct {
 	Ready          bool
+	Sent           int
 	Consumed       int
 	Result         string // returned | died: ... | hung
 	ReturnMs       int64
@@ -157,10 +159,13 @@ func runC13Wire(a c13WireArg) *c13WireRes {
 	w.Node.SetObserveFunc(func(v uint16, reqUUID uint64, nth int) simnode.ObserveState {
 		return simnode.ObserveState{VbUUID: uint64(100 + v), PersistSeqNo: 1 << 30, CurrentSeqNo: 1 << 30}
 	})
-	if a.SlowGets {
+	if a.SlowGets || a.SlowLoad {
 		w.Node.SetBehaviourFunc(func(req *simnode.Request) *simnode.Behaviour {
-			if req.Opcode == memd.CmdGet && strings.Contains(string(req.Key), ":instance:") && !strings.HasSuffix(string(req.Key), ":all") {
+			if a.SlowGets && req.Opcode == memd.CmdGet && strings.Contains(string(req.Key), ":instance:") && !strings.HasSuffix(string(req.Key), ":all") {
 				return simnode.Delay(150 * time.Millisecond)
+			}
+			if a.SlowLoad && strings.Contains(string(req.Key), ":checkpoint:") && (req.Opcode == memd.CmdSubDocMultiLookup || req.Opcode == memd.CmdGet) {
+				return simnode.Delay(120 * time.Millisecond)
 			}
 			return nil
 		})
@@ -219,6 +224,7 @@ func runC13Wire(a c13WireArg) *c13WireRes {
 	}
 	waitConsumed(sent)
 	time.Sleep(time.Duration(rng.Intn(40)) * time.Millisecond)
+	res.Sent = sent
 	res.Consumed = cons.count()
 	cons.mu.Lock()
 	for v, s := range cons.acked {
